@@ -145,9 +145,9 @@ def run(ctx, prove=True):
         per_site[obl] += 1
         reported += 1
         ops = [l for l in lines[: i + 1] if l.split()[0] in ("hist", "new", "op", "call")]
-        replay = {"history": lines[: i + 1], "ops": ops, "driver": "pplv_mip", "driver_args": ["--tab"], "verdict": d,
+        replay = {"stage": "c06_tab", "history": lines[: i + 1], "ops": ops, "driver": "pplv_mip", "driver_args": ["--tab"], "verdict": d,
                   "site": _site(obl), "all_mismatches": [x[1][:300] for x in bad[:6]],
-                  "replay_cmd": "harness c06_tab --replay <file with the `ops` lines> | pplv_mip --tab",
+                  "replay_cmd": "bin/check C06 --replay <this file>  (= harness c06_tab --replay <file with the `ops` lines> | pplv_mip --tab)",
                   "harness_args": cmd[1:], "failing_cases_in_this_run": len(failing)}
         if real:
             what = ("MIP_Problem LP machinery: the real answer contradicts the verified reference: %s | event: %s"
@@ -184,3 +184,33 @@ def run(ctx, prove=True):
         "c06_tab: the journal carries the constraints as stored in input_cs (after Constraint's own normalisation)",
     ]
     return broken
+
+
+def replay(ctx, path):
+    """re-executes the recorded case (`ops`: the new/op/call lines) on the real library of the current tree and
+    re-judges the fresh journal with the current model; exit status 1 (with a VIOLATION line) iff it still fails."""
+    import json
+    r = json.load(open(path))
+    print("property=%s what=%s" % (r.get("property"), (r.get("what") or "")[:400]))
+    ctx.ensure_ppl()
+    drv = ctx.ensure_pplv("pplv_mip")
+    h = ctx.compile_harness("c06_tab.cc")
+    wd = os.path.join(BUILD, "run-%s-tabreplay-%d" % (ctx.pid, os.getpid()))
+    shutil.rmtree(wd, ignore_errors=True)
+    os.makedirs(wd)
+    op = os.path.join(wd, "replay.ops")
+    with open(op, "w") as f:
+        f.write("\n".join(r.get("ops", [])) + "\n")
+    jp = os.path.join(wd, "replay.journal")
+    rc, _, err = ctx.run([h, "--replay", op], stdout_path=jp, timeout=300)
+    if rc != 0:
+        ctx.fatal("harness c06_tab --replay failed rc=%s %s" % (rc, (err or "")[-300:]))
+    rc, out, err = ctx.run([drv, "--tab"], stdin_path=jp, timeout=300)
+    journal = open(jp).read().splitlines()
+    bad = [l for l in (out or "").splitlines() if l.startswith("MISMATCH")]
+    print("\n".join(x[:200] for x in journal[-14:]))
+    print("\n".join(b[:400] for b in bad) if bad else "no mismatch when re-executed on the current tree")
+    if bad:
+        print("VIOLATION property=%s replay=%s" % (ctx.pid, path))
+        return 1
+    return 0
